@@ -70,6 +70,8 @@ MUTATIONS = [
  ('e13', 'C12', 'src/sampler.rs', r's/                        Err\(TryRecvError::Empty\) => \{\}\n                        Ok\(ChainCommand::Pause\) => \{\n                            msg = stop_marker_rx\.recv\(\)\.map_err\(\|e\| e\.into\(\)\);\n                            continue;\n                        \}\n                        Ok\(ChainCommand::Resume\) => \{\}/                        Ok(ChainCommand::Pause) => {\n                            msg = stop_marker_rx.recv().map_err(|e| e.into());\n                            continue;\n                        }\n                        Err(TryRecvError::Empty) | Ok(ChainCommand::Resume) => {}/', 'EQUIVALENT (match arms merged and reordered)'),
  ('e14', 'C03', 'src/nuts.rs', r's/            if self\.depth > 0 \{\n                if !turning \{/            if self.depth >= 1 {\n                if !turning {/', 'EQUIVALENT (depth > 0 as depth >= 1 on an unsigned depth)'),
  ('e15', 'C13', 'src/sampler.rs', r's/                    Ok\(\(None, trace\)\) => return SamplerWaitResult::Trace\(trace\),\n                    Err\(err\) => return SamplerWaitResult::Err\(err, None\),/                    Err(err) => return SamplerWaitResult::Err(err, None),\n                    Ok((None, trace)) => return SamplerWaitResult::Trace(trace),/', 'EQUIVALENT (match arms reordered)'),
+ ('m50', 'C17', 'src/math/cpu_math.rs', r's/            \.for_each\(\|\(s, &v\)\| \*s \*= v - 1\.0\);\n\n        \/\/ dest = rhs \+ U \* scratch/            .for_each(|(s, \&v)| *s *= v);\n\n        \/\/ dest = rhs + U * scratch/', 'apply_lowrank_transform scales the projection by vals instead of vals - 1'),
+ ('m51', 'C17', 'src/math/cpu_math.rs', r's/let inner_prod = vecs \* \(vals\.as_diagonal\(\) \* \(&trafo\) - \(&trafo\)\) \+ rhs;\n        let scaled = stds\.as_diagonal\(\) \* inner_prod;/let inner_prod = vecs * (vals.as_diagonal() * (\&trafo) - (\&trafo)) + rhs;\n        let scaled = inner_prod;/', 'array_mult_eigs forgets the outer diagonal scaling'),
  ('e01', 'C18', 'src/mclmc.rs', r's/&& self.draw_count == self.switch_draw/&& self.draw_count >= self.switch_draw/', 'EQUIVALENT on reachable states: must not be flagged'),
  ('e02', 'C08', 'src/math/cpu_math.rs', r's/\*mean \+= diff \* diff_scale;\n                \*var \+= diff \* diff;/*mean += diff * diff_scale;\n                *var += diff * (x - *mean);/', 'EQUIVALENT for the property (ratio of variances unchanged): must not be flagged'),
 ]
